@@ -58,6 +58,7 @@ def run(ctx):
     v_, why_ = pitfalls.mod_reduced(fi_)
     ctx.ob('PITCHCLASS/reduced', fi_, fi_.node, v_ == pitfalls.OK, why_, construct='%s returns a pitch class in 0..11' % q, definite=(v_ == pitfalls.BAD),
            unknown=why_ if v_ == pitfalls.UNKNOWN else None)
+  reader_tokens(ctx, mi)
   grouping_sorted(ctx, mi)
   degree_identity(ctx)
   units(ctx, mi)
@@ -442,6 +443,45 @@ def alter_branch_unreachable(ctx):
   call = [c for c in U.calls_in(p2.node) if dotted(c.func) == '_degrees_to_modifications']
   src_ok = len(call) == 1 and len(call[0].args) == 2
   return contain and dup and src_ok
+
+
+def reader_tokens(ctx, mi):
+  """Location-independent: (a) the modification string of a chord name mixes bare and parenthesised items ('b5(add4)',
+  '(add2)(#5)'); _parse_modifications must consume it item by item with the modification pattern (match at the current position,
+  or finditer).  Cutting it at a literal separator (`.split(')(')`) reads only the first item of a piece that holds a bare item
+  followed by parenthesised ones.  (b) an accidental group of a degree / pitch-class pattern ('bb', '##') must be *measured*
+  (len, count): a group that is only compared for equality with one-character strings loses the second accidental - the 'bb7' of the
+  diminished seventh becomes a natural seventh."""
+  from sa import pitfalls
+  pm_ = ctx.func('chord_symbols_lib:_parse_modifications')
+  cons = 'the modification string is consumed item by item with the modification pattern'
+  cuts = [c for c in U.calls_in(pm_.node) if isinstance(c.func, ast.Attribute) and c.func.attr in ('split', 'rsplit', 'partition') and c.args and isinstance(c.args[0], ast.Constant) and
+          isinstance(c.args[0].value, str)]
+  uses_regex = any(isinstance(c.func, ast.Attribute) and c.func.attr in ('match', 'finditer', 'findall') for c in U.calls_in(pm_.node))
+  if cuts:
+    ctx.ob('VOCAB/modifications-by-pattern', pm_, cuts[0], False, '%s cuts the modification string at the literal %r: a bare modification followed by parenthesised ones (m7b5(add4) is kind m7 with '
+           'modifications b5(add4)) stays one piece and only its first item is read - the writer emits such names, so they do not read back' % (norm_text(cuts[0])[:50], cuts[0].args[0].value),
+           construct=cons, definite=True)
+  elif uses_regex:
+    ctx.ob('VOCAB/modifications-by-pattern', pm_, pm_.node, True, 'items are taken with the modification pattern', construct=cons)
+  else:
+    why = 'cannot classify: how _parse_modifications takes the items apart is not recognised'
+    ctx.ob('VOCAB/modifications-by-pattern', pm_, pm_.node, False, why, construct=cons, unknown=why)
+  for q in ('_parse_degree', '_parse_pitch_class'):
+    fi = ctx.func('chord_symbols_lib:' + q)
+    groups = set()
+    for st in U.walk_stmts(fi.node):
+      if isinstance(st, ast.Assign) and any(isinstance(c, ast.Call) and isinstance(c.func, ast.Attribute) and c.func.attr in ('groups', 'group') for c in ast.walk(st.value)):
+        for t in st.targets:
+          groups |= set(x.id for x in ast.walk(t) if isinstance(x, ast.Name))
+    for g in sorted(groups):
+      for site in pitfalls.sign_only(fi.node, g):
+        if site.verdict == pitfalls.BAD:
+          ctx.ob('VOCAB/accidentals-measured', fi, site.node, False, 'in %s the pattern group %s is only compared (%s): a doubled accidental (bb, ##) is not told from none, so a degree such as bb7 '
+                 '(the diminished seventh of the kind table) or a root such as F## is read with the wrong alteration' % (q, g, site.why.split('(')[-1].split(')')[0]),
+                 construct='%s: accidental groups are measured, not only compared' % q, definite=True)
+        elif site.verdict == pitfalls.OK:
+          ctx.ob('VOCAB/accidentals-measured', fi, site.node, True, 'group %s enters the result by value' % g, construct='%s: group %s' % (q, g))
 
 
 def reader_special(fn):
